@@ -31,6 +31,8 @@ structure Req where
   query : Str
   opaq : Str
   header : Header
+  /-- url.URL.ForceQuery: the URL ends in "?" with an empty query ("/p?" is not "/p", RFC 3986 §6.2.3) -/
+  forceQuery : Bool := false
   deriving DecidableEq, Repr
 
 structure Resp where
